@@ -630,3 +630,115 @@ def run_inline_rewrites_all(prog, tier, repo):
                         res.ok(key, b.loc(st[3]), 'operand produced by the renaming')
     res.floor('expression operands of statements rebuilt by the inliner', n, 6)
     return [res]
+
+
+# ---------------------------------------------------------------------------------------------------------------------
+# LICM-KEPT-IS-VARIANT (C02): loop-invariant code motion walks the statements of a loop body once. A statement is either
+# hoisted in front of the loop or kept; when it is kept, the name it defines may change from iteration to iteration, so it has
+# to enter the set of loop-variant names - otherwise a later statement that reads it is judged invariant and hoisted in front
+# of the loop, above the definition it reads. For every statement variant that defines a name, every path from its match arm
+# back to the loop head passes through an insertion into the variant-name set or a push onto the hoisted vector (the only
+# paths excused are the ones on which an optional / repeated defining field turns out to be empty).
+
+DEFINING_FIELDS = ('name', 'struct_variable_name', 'closure_variable_name', 'return_collector', 'final_assignments', 'break_collector')
+
+
+def run_licm_kept_is_variant(prog, tier, repo):
+    from .delegate import origin
+    res = RuleResult('LICM-KEPT-IS-VARIANT', 'C02: a statement that loop-invariant code motion keeps inside the loop makes the name it '
+                     'defines loop-variant on every path (so nothing that reads it is hoisted above it)')
+    stmt = _adt(prog, 'samlang_ast::mir::Statement')
+    bs = [b for b in prog.bodies.values() if b.name.startswith('samlang_optimization::loop_invariant_code_motion::')
+          and b.kind != 'closure' and '::tests' not in b.name and 'LoopInvariantCodeMotionOptimizationResult' in b.locals[0].s]
+    if stmt is None or len(bs) != 1:
+        res.cannot_decide('the function of loop_invariant_code_motion that returns LoopInvariantCodeMotionOptimizationResult')
+        return [res]
+    b = bs[0]
+    cfg = cfg_of(b)
+    # the hoisted vector: the operand that ends up in the first Vec<Statement> field of the result
+    hoisted = None
+    for bl in b.blocks:
+        for st in bl.stmts:
+            if st[0] == 'a' and st[2][0] == 'agg' and st[2][1][0] == 'adt' and 'LoopInvariantCodeMotionOptimizationResult' in str(st[2][1][3]):
+                radt = prog.adts.get(st[2][1][1])
+                for k, o in enumerate(st[2][2]):
+                    if radt and radt.variants[0].fields[k].name.startswith('hoisted') and o[0] in ('c', 'm'):
+                        hoisted = root_local(b, o[1].local)[0]
+    if hoisted is None:
+        res.cannot_decide('the vector of hoisted statements in the result')
+        return [res]
+    sinks = set()
+    for bi, bl in enumerate(b.blocks):
+        t = bl.term
+        if bl.cleanup or t[0] != 'call' or not t[3] or t[3][0][0] not in ('c', 'm'):
+            continue
+        short = (callee(t)[1] or '').split('::')[-1]
+        r, _ = origin(b, t[3][0][1].local)
+        if short == 'insert' and 'HashSet' in (callee(t)[1] or ''):
+            sinks.add(bi)
+        elif short == 'push' and r == hoisted:
+            sinks.add(bi)
+    # the statement switch and the loop head that drives it
+    sw = None
+    for bi, bl in enumerate(b.blocks):
+        t = bl.term
+        if bl.cleanup or t[0] != 'switch' or t[1][0] not in ('c', 'm'):
+            continue
+        sd = single_def(b, t[1][1].local)
+        if not (sd and sd[1] != 'term' and sd[2][0] == 'disc'):
+            continue
+        pl = sd[2][1]
+        pty = b.locals[pl.local]
+        for e in pl.proj:
+            if e[0] == 'd' and pty.args:
+                pty = pty.args[0]
+            elif e[0] == 'f':
+                pty = e[5]
+        pty = strip_refs(pty)
+        if pty.k == 'adt' and pty.id == stmt.id and len(t[2]) >= 8:
+            sw = (bi, t, origin(b, pl.local)[0])
+    if sw is None:
+        res.cannot_decide('the match over mir::Statement in ' + b.name)
+        return [res]
+    bi_sw, t_sw, stmt_local = sw
+    heads = [bi for bi, bl in enumerate(b.blocks) if not bl.cleanup and bl.term[0] == 'call'
+             and (callee(bl.term)[1] or '').split('::')[-1] == 'next' and bi_sw in cfg.reachable(bi) and bi in cfg.reachable(bi_sw)
+             and not (bl.term[3] and bl.term[3][0][0] in ('c', 'm') and origin(b, bl.term[3][0][1].local)[0] == stmt_local)]
+    # excused edges: "the optional / repeated defining field is empty"
+    excused = set()
+    for bi, bl in enumerate(b.blocks):
+        t = bl.term
+        if bl.cleanup or t[0] != 'switch' or t[1][0] not in ('c', 'm') or bi == bi_sw:
+            continue
+        sd = single_def(b, t[1][1].local)
+        if not (sd and sd[1] != 'term' and sd[2][0] == 'disc'):
+            continue
+        r, p = origin(b, sd[2][1].local)
+        if r == stmt_local and any(e[0] == 'f' and e[4] in DEFINING_FIELDS for e in p + tuple(sd[2][1].proj)):
+            for v, tg in t[2]:
+                if v == 0:
+                    excused.add((bi, tg))
+            if not any(v == 0 for v, _ in t[2]):
+                excused.add((bi, t[3]))
+    n = 0
+    for v, tgt in t_sw[2]:
+        var = stmt.variants[v]
+        fields = list(var.fields)
+        if len(fields) == 1 and fields[0].ty.k == 'adt' and fields[0].ty.id in prog.adts and fields[0].name == '0':
+            fields = list(prog.adts[fields[0].ty.id].variants[0].fields)
+        defining = [f.name for f in fields if f.name in DEFINING_FIELDS]
+        key = f'kept:{b.name}:{var.name}'
+        if not defining:
+            res.ok(key, b.loc(t_sw[4]), 'the statement defines no name')
+            continue
+        n += 1
+        reach = cfg._reach_from(tgt, sinks, excused) if tgt not in sinks else set()
+        if any(h in reach for h in heads) or any(e in reach for e in cfg.exits):
+            res.violation(key, b.loc(t_sw[4]), f'{b.name}: a {var.name} statement (defines `{defining[0]}`) can be kept in the loop body '
+                          f'on a path that neither hoists it nor records its name as loop-variant: a later pure statement that reads '
+                          f'the name is then hoisted in front of the loop, above the definition, and reads a value that is not there '
+                          f'yet')
+        else:
+            res.ok(key, b.loc(t_sw[4]), f'`{defining[0]}` recorded as loop-variant (or the statement hoisted) on every path')
+    res.floor('name-defining statement variants handled by loop-invariant code motion', n, 10)
+    return [res]
